@@ -1,7 +1,9 @@
 (* Case decoder / result encoder for property C02 (same language in harness/src/c02.rs and
    tools/props/c02.py).
 
-     (2 1 term probes writes)
+     (2 1 term probes writes)     built by the harness through type-erased sources
+     (2 2 term probes writes)     the same, built with concrete adaptor types (the term skeletons
+                                  of harness/src/c02/fixed.rs); identical for the model
    term :=
      (0 id shape)                         leaf Tensor, element at flat offset k is id*1000 + k
      (1 term params) | (2 term params)    TensorRange | TensorMask
@@ -174,7 +176,7 @@ Definition c02_view (v : view) (probes : list (list N)) (writes : list (list N *
 
 Definition run_c02 (args : list sx) : sx :=
   match args with
-  | [SZ 1%Z; t; probes; writes] =>
+  | [SZ 1%Z; t; probes; writes] | [SZ 2%Z; t; probes; writes] =>
       match dview 40 t, dlist didx probes, dlist (dpair didx dZ) writes with
       | Some v, Some probes, Some writes =>
           if nodup_b (v_leaf_ids v) then
